@@ -6,6 +6,8 @@
 //     reject;
 // (c) real multiplications (select over BA widths / Boolean multiply) under `dzkp_validator` in
 //     single-shot and batched mode with one transmitted bit of a multiplication message flipped.
+// (d) deviating provers: a helper that sent wrong product bits crafts its proofs so that exactly a chosen set of the
+//     verifier's differences is non-zero; the real verifier code must reject every one of them.
 #[cfg(not(feature = "shuttle"))]
 mod m {
     use std::{
@@ -564,6 +566,742 @@ mod m {
                             rec.seen("multiplication_step_families_faulted", fam.clone());
                             rec.distinct(&("mul_fault", *ty, fam.as_str(), *src, batched));
                         }
+                    }
+                }
+            }
+        }
+        rec.finish();
+    }
+
+    // -----------------------------------------------------------------------------------------
+    // (d) deviating provers against the real verifier
+    // -----------------------------------------------------------------------------------------
+    //
+    // One helper P sent wrong product bits to its left neighbour (the batch is inconsistent) and does not run the
+    // honest prover: it builds every proof of the recursion itself (the code below is the adversary, written from the
+    // protocol description: own Lagrange arithmetic, own recursion, own secret sharing of the proofs; only the public
+    // primitives - u/v tables, PRSS, Fiat-Shamir hash - are shared with the code under test).  With u/v taken from the
+    // verifiers' views the recomputed p(r), q(r) agree with the prover's, and with an error vector e_i added to the
+    // i-th proof the verifiers' differences are
+    //     d[0] = t + S(e_0),   d[i] = S(e_i) - e_{i-1}(r_{i-1}),   d[k+1] = -e_k(r_k)
+    // (t = number of wrong product bits, S = sum over the points that enter the sum check), so ANY non-empty set of
+    // differences can be made the set of non-zero ones - and none of them may be accepted.
+    // The verifier side is the real code: `Batch::validate` on the honest helpers (batch mode) or the same sequence of
+    // calls `BatchToVerify::{generate_batch_to_verify, generate_challenges, compute_p_and_q_r, verify}` (deviating
+    // helper, and all helpers in direct mode where the number of multiplications is not a multiple of 256).
+
+    use super::super::super::{Base, Step};
+    use crate::{
+        ff::PrimeField,
+        helpers::hashing::{compute_hash, hash_to_field},
+        protocol::{
+            RecordIdRange,
+            ipa_prf::{
+                CompressedProofGenerator, FirstProofGenerator, ProverTableIndices, VerifierTableIndices,
+                validation_protocol::{proof_generation::ProofBatch, validation::BatchToVerify},
+            },
+            prss::SharedRandomness,
+        },
+    };
+
+    type Fq = Fp61BitPrime;
+    /// recursion factor / proof length of both proof generators (checked at run time against the crate's constants)
+    const RL: usize = 4;
+    const PL: usize = 7;
+    /// `Batch::validate`: PRSS records reserved per batch
+    const PRSS_PER_BATCH: usize = PL + 13 * PL + 2;
+
+    fn fe(n: usize) -> Fq {
+        Fq::truncate_from(n as u128)
+    }
+    /// a^(p-2)
+    fn finv(a: Fq) -> Fq {
+        let mut e: u128 = u128::from(Fq::PRIME) - 2;
+        let (mut base, mut acc) = (a, Fq::ONE);
+        while e > 0 {
+            if e & 1 == 1 {
+                acc = acc * base;
+            }
+            base = base * base;
+            e >>= 1;
+        }
+        acc
+    }
+    /// Lagrange basis l_j(x) for the nodes 0..n-1
+    fn basis(n: usize, x: Fq) -> Vec<Fq> {
+        (0..n)
+            .map(|j| {
+                let (mut num, mut den) = (Fq::ONE, Fq::ONE);
+                for o in 0..n {
+                    if o != j {
+                        num = num * (x - fe(o));
+                        den = den * (fe(j) - fe(o));
+                    }
+                }
+                num * finv(den)
+            })
+            .collect()
+    }
+    fn dotv(row: &[Fq], y: &[Fq]) -> Fq {
+        row.iter().zip(y).fold(Fq::ZERO, |s, (a, b)| s + *a * *b)
+    }
+    fn interp(points: &[Fq], x: Fq) -> Fq {
+        dotv(&basis(points.len(), x), points)
+    }
+    fn rechunk(vals: &[Fq]) -> Vec<[Fq; RL]> {
+        vals.chunks(RL)
+            .map(|c| {
+                let mut a = [Fq::ZERO; RL];
+                a[..c.len()].copy_from_slice(c);
+                a
+            })
+            .collect()
+    }
+    fn rand_nz(r: &mut VRng) -> Fq {
+        loop {
+            let x = if r.below(4) == 0 { Fq::truncate_from(u128::from(r.below(3) + 1)) } else { Fq::truncate_from(u128::from(r.next() >> 4)) };
+            if x != Fq::ZERO {
+                return x;
+            }
+        }
+    }
+    /// number of compressed proofs for m multiplications (the differences vector has k + 2 entries)
+    fn levels(m: usize) -> usize {
+        let (mut n, mut k) = (m, 0);
+        loop {
+            k += 1;
+            if n < RL {
+                return k;
+            }
+            n = n.div_ceil(RL);
+        }
+    }
+    fn diff_label(i: usize, k: usize) -> &'static str {
+        if i == 0 {
+            "first_sum"
+        } else if i == k + 1 {
+            "final_value"
+        } else if i == 1 {
+            "first_link"
+        } else if i == k {
+            "final_link"
+        } else {
+            "mid_link"
+        }
+    }
+
+    #[derive(Clone, Debug)]
+    struct Plan {
+        /// sorted set of differences that are to be non-zero (empty = no deviation)
+        target: Vec<usize>,
+        /// u/v from the prover's own intermediates instead of the verifiers' views (needs k+1 in the target)
+        own_view: bool,
+        seed: u64,
+    }
+
+    #[derive(Clone, Debug, Default)]
+    struct CraftReport {
+        k: usize,
+        nonzero: Vec<usize>,
+        tags: Vec<&'static str>,
+        ops: Vec<Value>,
+    }
+
+    /// The deviating prover. Consumes PRSS exactly like `ProofBatch::generate` and returns the same four values.
+    fn craft_proofs(
+        ctx: &Base<'_, NotSharded>,
+        prss_base: usize,
+        own: &[(u8, u8)],
+        u_ver: &[u8],
+        v_ver: &[u8],
+        plan: &Plan,
+    ) -> (ProofBatch, ProofBatch, Fq, Fq, CraftReport) {
+        let m = own.len();
+        assert!(u_ver.len() == m && v_ver.len() == m);
+        let k = levels(m);
+        let mut r = VRng::new(plan.seed, 0xc4af);
+        let sum_of_uv = fe(m) * Fq::MINUS_ONE_HALF;
+        let mut next_id = prss_base;
+        let mut draw = || -> (Fq, Fq) {
+            let v: (Fq, Fq) = ctx.prss().generate_fields(RecordId::from(next_id));
+            next_id += 1;
+            v
+        };
+        let ext: Vec<Vec<Fq>> = (RL..PL).map(|x| basis(RL, fe(x))).collect();
+        let true_proof = |us: &[[Fq; RL]], vs: &[[Fq; RL]]| -> [Fq; PL] {
+            let mut g = [Fq::ZERO; PL];
+            for (u, v) in us.iter().zip(vs) {
+                for j in 0..PL {
+                    let (uj, vj) = if j < RL { (u[j], v[j]) } else { (dotv(&ext[j - RL], u), dotv(&ext[j - RL], v)) };
+                    g[j] += uj * vj;
+                }
+            }
+            g
+        };
+        // prover's chain (pu, pv) and the two verifiers' chains (vu, vv)
+        let mut vu: Vec<[Fq; RL]> = u_ver.iter().map(|i| TABLE_U[usize::from(*i)]).collect();
+        let mut vv: Vec<[Fq; RL]> = v_ver.iter().map(|i| TABLE_V[usize::from(*i)]).collect();
+        let (mut pu, mut pv) = if plan.own_view {
+            (own.iter().map(|i| TABLE_U[usize::from(i.0)]).collect::<Vec<_>>(), own.iter().map(|i| TABLE_V[usize::from(i.1)]).collect::<Vec<_>>())
+        } else {
+            (vu.clone(), vv.clone())
+        };
+        let mut nvals = m * RL;
+        let max = plan.target.last().copied();
+        if plan.own_view {
+            assert_eq!(max, Some(k + 1));
+        }
+        let mut rep = CraftReport { k, ..Default::default() };
+        let mut tags: std::collections::BTreeSet<&'static str> = Default::default();
+        tags.insert(if plan.own_view { "uv_own_view" } else { "uv_from_verifier_views" });
+        let (mut sent, mut rs): (Vec<[Fq; PL]>, Vec<Fq>) = (Vec::new(), Vec::new());
+        let (mut left_shares, mut from_left): (Vec<[Fq; PL]>, Vec<[Fq; PL]>) = (Vec::new(), Vec::new());
+        let (mut p_mask_from_right, mut q_mask_from_left) = (Fq::ZERO, Fq::ZERO);
+        let (mut my_p_mask, mut my_q_mask) = (Fq::ZERO, Fq::ZERO);
+        let (mut p_ver, mut q_ver) = (Fq::ZERO, Fq::ZERO);
+        for lvl in 0..=k {
+            if lvl == 1 {
+                let (a, b) = draw();
+                my_p_mask = a;
+                p_mask_from_right = b;
+                let (a, b) = draw();
+                q_mask_from_left = a;
+                my_q_mask = b;
+            }
+            let fin = lvl == k;
+            if fin {
+                assert!(lvl >= 1 && nvals < RL && pu.len() == 1, "recursion depth miscounted");
+                for (c, mask) in [(&mut pu, my_p_mask), (&mut pv, my_q_mask), (&mut vu, my_p_mask), (&mut vv, my_q_mask)] {
+                    c[0][RL - 1] = c[0][0];
+                    c[0][0] = mask;
+                }
+            } else {
+                assert!(lvl == 0 || nvals >= RL, "recursion depth miscounted");
+            }
+            let g_true = true_proof(&pu, &pv);
+            let expected = if lvl == 0 { sum_of_uv } else { interp(&sent[lvl - 1], rs[lvl - 1]) };
+            let lo = usize::from(fin);
+            let base_diff = g_true[lo..RL].iter().fold(Fq::ZERO, |s, x| s + *x) - expected;
+            let mut e = [Fq::ZERO; PL];
+            if let Some(mx) = max.filter(|mx| lvl < *mx) {
+                let in_s = plan.target.binary_search(&lvl).is_ok();
+                let a = if in_s {
+                    if base_diff != Fq::ZERO && r.bool() {
+                        tags.insert("error_left_in_place");
+                        Fq::ZERO
+                    } else {
+                        loop {
+                            let x = rand_nz(&mut r);
+                            if base_diff + x != Fq::ZERO {
+                                break x;
+                            }
+                        }
+                    }
+                } else {
+                    Fq::ZERO - base_diff
+                };
+                if a != Fq::ZERO {
+                    tags.insert(match (lvl == 0, fin, in_s) {
+                        (true, _, false) => "first_proof_sum_fixed",
+                        (true, _, true) => "first_proof_shifted",
+                        (_, true, false) => "final_proof_compensated",
+                        (_, true, true) => "final_proof_shifted",
+                        (_, _, false) => "intermediate_proof_compensated",
+                        (_, _, true) => "intermediate_proof_shifted",
+                    });
+                    let j = lo + r.below((RL - lo) as u64) as usize;
+                    if r.below(4) == 0 {
+                        // spread over two points that enter the sum
+                        let j2 = lo + r.below((RL - lo) as u64) as usize;
+                        let part = rand_nz(&mut r);
+                        e[j] += part;
+                        e[j2] += a - part;
+                        rep.ops.push(json!({"level": lvl, "points": [j, j2], "sum_shift": a.as_u128().to_string()}));
+                    } else {
+                        e[j] += a;
+                        rep.ops.push(json!({"level": lvl, "points": [j], "sum_shift": a.as_u128().to_string()}));
+                    }
+                }
+                // the last deviating proof of a verifier-view chain has to differ from the true one
+                let must = !plan.own_view && lvl + 1 == mx && a == Fq::ZERO;
+                if must || r.below(5) == 0 {
+                    let mut outs: Vec<usize> = (RL..PL).collect();
+                    if fin {
+                        outs.push(0);
+                        outs.push(0); // favour the mask slot
+                    }
+                    let j = *r.choose(&outs);
+                    let x = rand_nz(&mut r);
+                    e[j] += x;
+                    tags.insert(if j == 0 { "final_mask_slot" } else { "point_outside_sum" });
+                    rep.ops.push(json!({"level": lvl, "points": [j], "outside_sum": x.as_u128().to_string()}));
+                }
+            }
+            let mut g = g_true;
+            for j in 0..PL {
+                g[j] += e[j];
+            }
+            let (mut fl, mut right, mut left) = ([Fq::ZERO; PL], [Fq::ZERO; PL], [Fq::ZERO; PL]);
+            for j in 0..PL {
+                let (l, rr) = draw();
+                fl[j] = l;
+                right[j] = rr;
+                left[j] = g[j] - rr;
+            }
+            let r_i: Fq = hash_to_field(&compute_hash(&left), &compute_hash(&right), RL as u128);
+            sent.push(g);
+            rs.push(r_i);
+            left_shares.push(left);
+            from_left.push(fl);
+            let row = basis(RL, r_i);
+            if fin {
+                p_ver = dotv(&row, &vu[0]);
+                q_ver = dotv(&row, &vv[0]);
+            } else {
+                nvals = pu.len();
+                for c in [&mut pu, &mut pv, &mut vu, &mut vv] {
+                    let vals: Vec<Fq> = c.iter().map(|x| dotv(&row, x)).collect();
+                    *c = rechunk(&vals);
+                }
+            }
+        }
+        // reference differences (what an exact verifier computes from the proofs as sent)
+        let mut d = Vec::with_capacity(k + 2);
+        for lvl in 0..=k {
+            let lo = usize::from(lvl == k);
+            let s = sent[lvl][lo..RL].iter().fold(Fq::ZERO, |s, x| s + *x);
+            d.push(s - if lvl == 0 { sum_of_uv } else { interp(&sent[lvl - 1], rs[lvl - 1]) });
+        }
+        d.push(p_ver * q_ver - interp(&sent[k], rs[k]));
+        rep.nonzero = d.iter().enumerate().filter(|(_, x)| **x != Fq::ZERO).map(|(i, _)| i).collect();
+        rep.tags = tags.into_iter().collect();
+        let mut ls = left_shares.into_iter();
+        let mut fl = from_left.into_iter();
+        (
+            ProofBatch { first_proof: ls.next().unwrap(), proofs: ls.collect() },
+            ProofBatch { first_proof: fl.next().unwrap(), proofs: fl.collect() },
+            p_mask_from_right,
+            q_mask_from_left,
+            rep,
+        )
+    }
+
+    enum ProverKind {
+        /// the crate's `ProofBatch::generate`
+        HonestCode,
+        Crafted { plan: Plan, u_ver: Vec<u8>, v_ver: Vec<u8> },
+    }
+
+    /// What one helper does in a crafted-prover run.
+    enum Part {
+        /// the real `Batch::validate`
+        Real(Batch),
+        /// the same sequence of calls as `Batch::validate`, on index lists
+        Mirror { prover: ProverKind, own: Vec<(u8, u8)>, from_right: Vec<u8>, from_left: Vec<u8> },
+    }
+
+    async fn mirror_validate(
+        ctx: Base<'_, NotSharded>,
+        prover: ProverKind,
+        own: Vec<(u8, u8)>,
+        from_right: Vec<u8>,
+        from_left: Vec<u8>,
+    ) -> (Result<(), Error>, Option<CraftReport>) {
+        let batch_index = 0usize;
+        let proof_ctx = ctx.narrow(&Step::GenerateProof);
+        let record_id = RecordId::from(batch_index);
+        let prss_start = batch_index * PRSS_PER_BATCH;
+        let (mine, from_left_prover, p_mask, q_mask, rep) = match &prover {
+            ProverKind::HonestCode => {
+                let ids = RecordIdRange::from(RecordId::from(prss_start)..RecordId::from(prss_start + PRSS_PER_BATCH));
+                let (a, b, c, d) = ProofBatch::generate(&proof_ctx, ids, ProverTableIndices(own.iter().copied()));
+                (a, b, c, d, None)
+            }
+            ProverKind::Crafted { plan, u_ver, v_ver } => {
+                let (a, b, c, d, rep) = craft_proofs(&proof_ctx, prss_start, &own, u_ver, v_ver, plan);
+                (a, b, c, d, Some(rep))
+            }
+        };
+        let to_verify = BatchToVerify::generate_batch_to_verify(proof_ctx, record_id, mine, from_left_prover, p_mask, q_mask).await;
+        let (ch_left, ch_right) = to_verify.generate_challenges(ctx.narrow(&Step::Challenge), record_id).await;
+        let m = own.len();
+        let sum_of_uv = fe(m) * Fq::MINUS_ONE_HALF;
+        let (p, q) = to_verify.compute_p_and_q_r(
+            &ch_left,
+            &ch_right,
+            VerifierTableIndices { input: from_right.iter().copied(), table: &TABLE_U },
+            VerifierTableIndices { input: from_left.iter().copied(), table: &TABLE_V },
+        );
+        let res = to_verify.verify(ctx.narrow(&Step::VerifyProof), record_id, sum_of_uv, p, q, &ch_left, &ch_right).await;
+        (res, rep)
+    }
+
+    #[derive(Clone, Debug)]
+    struct CraftCase {
+        /// true: records are stored in real `Batch`es and the honest helpers run `Batch::validate`
+        batch_mode: bool,
+        width: usize,
+        records: usize,
+        deviator: usize,
+        /// wrong product bits (record, bit) in what the deviator sent to its left neighbour
+        wrong: Vec<(usize, usize)>,
+        /// None: the deviator runs the crate's prover
+        plan: Option<Plan>,
+        seed: u64,
+    }
+    impl CraftCase {
+        fn to_json(&self) -> Value {
+            json!({"batch_mode": self.batch_mode, "width": self.width, "records": self.records, "deviator": self.deviator,
+                   "wrong_product_bits": self.wrong, "seed": self.seed,
+                   "plan": self.plan.as_ref().map(|p| json!({"target": p.target, "own_view": p.own_view, "seed": p.seed}))})
+        }
+        fn multiplications(&self) -> usize {
+            if self.batch_mode {
+                let w = if self.width < 256 { self.width.next_power_of_two() } else { self.width };
+                (self.records * w).div_ceil(256) * 256
+            } else {
+                self.records * self.width
+            }
+        }
+    }
+
+    type CraftOut = Vec<Result<(Result<(), String>, Option<CraftReport>), String>>;
+
+    /// number of positions at which the two verifiers' views of a prover are an inconsistent multiplication
+    /// (reference: e = ab ^ cd ^ f on the decoded table indices)
+    fn inconsistent_positions(u_ver: &[u8], v_ver: &[u8]) -> usize {
+        u_ver
+            .iter()
+            .zip(v_ver)
+            .filter(|(u, v)| {
+                let (a, c, e) = (**u & 1, (**u >> 1) & 1, (**u >> 2) & 1);
+                let (b, d, f) = (**v & 1, (**v >> 1) & 1, (**v >> 2) & 1);
+                e != ((a & b) ^ (c & d) ^ f)
+            })
+            .count()
+    }
+
+    fn run_craft_case(case: &CraftCase) -> (Paused<CraftOut>, usize) {
+        let mut r = VRng::new(case.seed, 11);
+        let mut data: Vec<[Seven; 3]> = (0..case.records).map(|_| model_record(case.width, &mut r)).collect();
+        let left_of = (case.deviator + 2) % 3;
+        let right_of = (case.deviator + 1) % 3;
+        for &(rcd, bit) in &case.wrong {
+            let cur = data[rcd][left_of].a[6][bit];
+            data[rcd][left_of].a[6].set(bit, !cur);
+        }
+        // the three views of every helper's multiplications
+        let mut batches: Vec<Option<Batch>> = Vec::new();
+        let mut own: Vec<Vec<(u8, u8)>> = Vec::new();
+        let mut from_right: Vec<Vec<u8>> = Vec::new();
+        let mut from_left: Vec<Vec<u8>> = Vec::new();
+        for h in 0..3 {
+            if case.batch_mode {
+                let mut batch = Batch::new(Some(RecordId::from(0usize)), case.records);
+                let gate = Gate::default().narrow("crafted-mul");
+                for (rcd, d) in data.iter().enumerate() {
+                    let s = &d[h];
+                    let seg = Segment::from_entries(
+                        SegmentEntry::from_bitslice(&s.a[0]),
+                        SegmentEntry::from_bitslice(&s.a[1]),
+                        SegmentEntry::from_bitslice(&s.a[2]),
+                        SegmentEntry::from_bitslice(&s.a[3]),
+                        SegmentEntry::from_bitslice(&s.a[4]),
+                        SegmentEntry::from_bitslice(&s.a[5]),
+                        SegmentEntry::from_bitslice(&s.a[6]),
+                    );
+                    batch.push(gate.clone(), RecordId::from(rcd), seg);
+                }
+                own.push(batch.get_field_values_prover().collect());
+                from_right.push(batch.get_field_values_from_right_prover().collect());
+                from_left.push(batch.get_field_values_from_left_prover().collect());
+                batches.push(Some(batch));
+            } else {
+                let (mut o, mut fr, mut fl) = (Vec::new(), Vec::new(), Vec::new());
+                for d in &data {
+                    let s = &d[h].a;
+                    for i in 0..case.width {
+                        let bit = |arr: usize| u8::from(s[arr][i]);
+                        let (xl, xr, yl, yr, pl, pr, zr) = (bit(0), bit(1), bit(2), bit(3), bit(4), bit(5), bit(6));
+                        let e = (xl & yr) ^ (yl & xr) ^ pr;
+                        o.push((xl + 2 * yl + 4 * e, yr + 2 * xr + 4 * pr));
+                        fr.push(xr + 2 * yr + 4 * ((xr & yr) ^ pr ^ zr));
+                        fl.push(yl + 2 * xl + 4 * pl);
+                    }
+                }
+                own.push(o);
+                from_right.push(fr);
+                from_left.push(fl);
+                batches.push(None);
+            }
+        }
+        let dv = case.deviator;
+        let wrong_seen = inconsistent_positions(&from_right[left_of], &from_left[right_of]);
+        let mut parts: Vec<Option<Part>> = Vec::new();
+        for h in 0..3 {
+            let prover = if h == dv {
+                match &case.plan {
+                    Some(plan) => ProverKind::Crafted { plan: plan.clone(), u_ver: from_right[left_of].clone(), v_ver: from_left[right_of].clone() },
+                    None => ProverKind::HonestCode,
+                }
+            } else {
+                ProverKind::HonestCode
+            };
+            let real = case.batch_mode && !(h == dv && case.plan.is_some());
+            parts.push(Some(if real {
+                Part::Real(batches[h].take().unwrap())
+            } else {
+                Part::Mirror { prover, own: own[h].clone(), from_right: from_right[h].clone(), from_left: from_left[h].clone() }
+            }));
+        }
+        let seed = case.seed;
+        let out = vlib::run_paused(Duration::from_secs(60), async move {
+            let mut cfg = TestWorldConfig::default();
+            cfg.seed = seed;
+            cfg.timeout = None;
+            let world = TestWorld::new_with(&cfg);
+            let ctxs = world.malicious_contexts();
+            let futs = ctxs.into_iter().zip(parts).map(|(ctx, part)| async move {
+                let base = ctx.narrow("c03-crafted").validator_context();
+                match part.unwrap() {
+                    Part::Real(batch) => catch_fut(batch.validate(base, 0)).await.map(|r| (r.map_err(|e| format!("{e:?}")), None)),
+                    Part::Mirror { prover, own, from_right, from_left } => {
+                        catch_fut(mirror_validate(base, prover, own, from_right, from_left)).await.map(|(r, rep)| (r.map_err(|e| format!("{e:?}")), rep))
+                    }
+                }
+            });
+            join_all(futs).await
+        });
+        (out, wrong_seen)
+    }
+
+    fn judge_craft(rec: &mut Recorder, case: &CraftCase, idx: usize) {
+        let (out, wrong_seen) = run_craft_case(case);
+        let m = case.multiplications();
+        let k = levels(m);
+        rec.eval();
+        let consistent = case.wrong.is_empty();
+        if wrong_seen != case.wrong.len() {
+            rec.inconclusive(format!("case {idx}: {} wrong product bits planted, the verifiers' views show {wrong_seen}", case.wrong.len()));
+            return;
+        }
+        let (classes, report): (Vec<String>, Option<CraftReport>) = match &out {
+            Paused::Done(res) => (
+                res.iter()
+                    .map(|r| match r {
+                        Ok((Ok(()), _)) => "ok".to_string(),
+                        Ok((Err(e), _)) => format!("err:{}", e.split(|c: char| !c.is_alphanumeric()).next().unwrap_or("")),
+                        Err(_) => "panic".to_string(),
+                    })
+                    .collect(),
+                res.iter().find_map(|r| r.as_ref().ok().and_then(|x| x.1.clone())),
+            ),
+            Paused::Quiescent => (vec!["quiescent".to_string()], None),
+        };
+        let all_ok = classes.len() == 3 && classes.iter().all(|c| c == "ok");
+        let shape = format!("{}/m{}/levels{}", if case.batch_mode { "batch" } else { "direct" }, m, k);
+        if consistent {
+            // controls: honest data; the crate's prover everywhere, or the harness prover without any deviation
+            let harness_prover = case.plan.is_some();
+            if let Some(rep) = &report {
+                if !rep.nonzero.is_empty() {
+                    rec.inconclusive(format!("case {idx}: the harness prover's own differences are not zero on honest data: {:?}", rep.nonzero));
+                    return;
+                }
+            }
+            if all_ok {
+                rec.count(if harness_prover { "control_harness_prover_accepted" } else { "control_honest_accepted" });
+                rec.distinct(&("crafted_control", harness_prover, case.batch_mode, m, case.deviator));
+                rec.seen("crafted_shapes", shape);
+            } else {
+                rec.violation(
+                    "a consistent batch with a correct proof was rejected",
+                    json!({"kind": "crafted_control_rejected", "harness_prover": harness_prover, "batch_mode": case.batch_mode}),
+                    json!({"case": idx, "craft_case": case.to_json(), "verdicts": classes}),
+                );
+            }
+            return;
+        }
+        let Some(plan) = &case.plan else {
+            // the crate's prover on an inconsistent batch
+            if all_ok {
+                rec.violation(
+                    "a batch with wrong product bits was accepted by all three helpers",
+                    json!({"kind": "wrong_product_accepted", "batch_mode": case.batch_mode}),
+                    json!({"case": idx, "craft_case": case.to_json()}),
+                );
+            } else {
+                rec.count("honest_code_on_wrong_product_rejected");
+                rec.distinct(&("honest_code", case.batch_mode, m, case.deviator, case.wrong.len()));
+            }
+            return;
+        };
+        let Some(rep) = report else {
+            rec.inconclusive(format!("case {idx}: the deviating prover did not finish ({classes:?})"));
+            return;
+        };
+        let intended = rep.nonzero == plan.target;
+        rec.count(if intended { "crafted_intended_set_produced" } else { "crafted_intended_set_missed" });
+        let n = rep.nonzero.len();
+        rec.seen("crafted_nonzero_set_sizes", format!("{n}"));
+        for t in &rep.tags {
+            rec.seen("crafted_strategies", *t);
+        }
+        rec.seen("crafted_shapes", shape);
+        if n == 1 {
+            rec.seen("crafted_singletons", format!("levels{}:{}", k, rep.nonzero[0]));
+        }
+        let strategy = rep.tags.join("+");
+        if all_ok {
+            let mut labels: Vec<&str> = rep.nonzero.iter().map(|i| diff_label(*i, k)).collect();
+            labels.sort_unstable();
+            let class = if n <= 2 { json!(labels) } else { json!(format!("{} of them ({})", if n % 2 == 0 { "even number" } else { "odd number" }, if n == k + 2 { "all" } else { "some" })) };
+            rec.violation(
+                "an inconsistent batch with a crafted proof was accepted by all three helpers",
+                json!({"kind": "crafted_proof_accepted", "nonzero_differences": class,
+                       "strategy": if plan.own_view { "uv_own_view" } else { "uv_from_verifier_views" }}),
+                json!({"case": idx, "craft_case": case.to_json(), "multiplications": m, "compressed_proofs": k,
+                       "nonzero_differences": rep.nonzero, "intended": plan.target, "strategy": strategy, "operations": rep.ops}),
+            );
+        } else {
+            rec.count("crafted_proof_rejected");
+            rec.distinct(&("crafted", case.batch_mode, m, case.deviator, &plan.target, plan.own_view));
+            for (i, c) in classes.iter().enumerate() {
+                if c != "ok" && classes.len() == 3 {
+                    rec.seen("crafted_rejecting_helper", format!("{}:{}", ["self", "right", "left"][(i + 3 - case.deviator) % 3], c));
+                }
+            }
+        }
+    }
+
+    fn craft_replay_case() -> Option<usize> {
+        let p = vlib::env().replay?;
+        let w: Value = serde_json::from_str(&std::fs::read_to_string(p).ok()?).ok()?;
+        w["witness"]["case"].as_u64().map(|v| v as usize)
+    }
+
+    /// every non-empty target set that is played for a differences vector of length n: all singletons, all pairs and
+    /// `extra` larger sets of both parities (all sets when there are at most 15)
+    fn target_sets(n: usize, extra: usize, r: &mut VRng) -> Vec<Vec<usize>> {
+        let mut sets: Vec<Vec<usize>> = Vec::new();
+        if n <= 4 {
+            for mask in 1u32..(1 << n) {
+                sets.push((0..n).filter(|i| mask >> i & 1 == 1).collect());
+            }
+            return sets;
+        }
+        for i in 0..n {
+            sets.push(vec![i]);
+        }
+        for i in 0..n {
+            for j in i + 1..n {
+                sets.push(vec![i, j]);
+            }
+        }
+        sets.push((0..n).collect());
+        sets.push((0..n - 1).collect());
+        sets.push((1..n).collect());
+        for e in 0..extra {
+            let size = 3 + (e % (n - 3).max(1));
+            let mut all: Vec<usize> = (0..n).collect();
+            r.shuffle(&mut all);
+            let mut s: Vec<usize> = all.into_iter().take(size).collect();
+            s.sort_unstable();
+            sets.push(s);
+        }
+        sets
+    }
+
+    #[test]
+    fn verif_c03_crafted_prover() {
+        let env = vlib::env();
+        let mut rec = Recorder::new("C03", "verif_c03_crafted_prover");
+        if FirstProofGenerator::RECURSION_FACTOR != RL
+            || FirstProofGenerator::PROOF_LENGTH != PL
+            || CompressedProofGenerator::RECURSION_FACTOR != RL
+            || CompressedProofGenerator::PROOF_LENGTH != PL
+            || super::super::super::MAX_PROOF_RECURSION != 14
+        {
+            rec.inconclusive("proof generator parameters differ from the ones the deviating prover is written for");
+            rec.finish();
+            return;
+        }
+        let replay = craft_replay_case();
+        let take = |idx: usize| replay.map_or(env.mine(idx), |c| c == idx);
+        // (batch_mode, width, records): direct sizes need 1, 1, 2, 2, 3, 3, 4, 4, 5 compressed proofs; batches 5, 5, 6, 6, 7(, 7, 8)
+        let mut shapes: Vec<(bool, usize, usize)> = vec![
+            (false, 1, 1),
+            (false, 3, 1),
+            (false, 4, 1),
+            (false, 5, 3),
+            (false, 16, 1),
+            (false, 21, 3),
+            (false, 64, 1),
+            (false, 100, 2),
+            (false, 256, 1),
+            (true, 256, 1),
+            (true, 32, 20),
+            (true, 256, 4),
+            (true, 8, 160),
+            (true, 256, 16),
+        ];
+        if env.thorough {
+            shapes.extend([(false, 2, 1), (false, 15, 1), (false, 63, 1), (false, 255, 1), (false, 257, 1), (true, 512, 1), (true, 64, 64), (true, 256, 32), (true, 256, 64)]);
+        }
+        let extra = env.pick(4, 12);
+        let reps = env.pick(2, 3);
+        let mut idx = 0usize;
+        for (si, &(batch_mode, width, records)) in shapes.iter().enumerate() {
+            let shape_seed = env.seed.wrapping_mul(3001) + si as u64;
+            let probe = CraftCase { batch_mode, width, records, deviator: 0, wrong: vec![], plan: None, seed: shape_seed };
+            let m = probe.multiplications();
+            let n = levels(m) + 2;
+            for dv in 0..3usize {
+                // controls on honest data
+                for harness_prover in [false, true] {
+                    idx += 1;
+                    if take(idx) {
+                        let mut c = probe.clone();
+                        c.deviator = dv;
+                        c.plan = harness_prover.then(|| Plan { target: vec![], own_view: false, seed: shape_seed ^ idx as u64 });
+                        judge_craft(&mut rec, &c, idx);
+                    }
+                }
+                let mut sr = VRng::new(env.seed ^ 0xc03d, (si * 3 + dv) as u64);
+                let sets = target_sets(n, extra, &mut sr);
+                // the crate's prover on wrong product bits, then every target set
+                // every set is played `reps` times with other wrong bits, points and offsets
+                let plays = std::iter::once(None).chain(sets.into_iter().flat_map(|t| std::iter::repeat(Some(t)).take(reps)));
+                for (ti, target) in plays.enumerate() {
+                    idx += 1;
+                    let mut r = VRng::new(env.seed ^ 0xc03e, idx as u64);
+                    // large shapes are thinned (singletons are always played)
+                    let big = m >= 4096;
+                    let thin = big && target.as_ref().is_some_and(|t| t.len() > 1) && r.below(env.pick(3, 2)) != 0;
+                    if thin || !take(idx) {
+                        continue;
+                    }
+                    let n_wrong = if ti % 3 == 2 { 2 + r.below(4) as usize } else { 1 };
+                    let mut wrong: Vec<(usize, usize)> = Vec::new();
+                    while wrong.len() < n_wrong.min(records * width) {
+                        let w = match r.below(4) {
+                            0 => (0, 0),
+                            1 => (records - 1, width - 1),
+                            _ => (r.below(records as u64) as usize, r.below(width as u64) as usize),
+                        };
+                        if !wrong.contains(&w) {
+                            wrong.push(w);
+                        }
+                    }
+                    wrong.sort_unstable();
+                    let plan = target.map(|t| {
+                        let own_view = t.last() == Some(&(n - 1)) && r.below(3) == 0;
+                        Plan { target: t, own_view, seed: env.seed ^ (idx as u64).wrapping_mul(0x9E37_79B9) }
+                    });
+                    let c = CraftCase { batch_mode, width, records, deviator: dv, wrong, plan, seed: shape_seed };
+                    judge_craft(&mut rec, &c, idx);
+                    if rec.want_sample() && ti % 7 == 3 {
+                        rec.sample(json!({"crafted_case": c.to_json(), "multiplications": m, "differences": n}));
                     }
                 }
             }
